@@ -29,9 +29,12 @@ EXTENDS Naturals, Sequences, FiniteSets, TLC
 CONSTANTS NameMask,   \* 4095 in git: width of the name-length field of the flags word
           Family,     \* which case family the initial states enumerate
           MaxKeys,    \* family "names": size bound of the key sets
+          MaxEdits,   \* family "hist": length bound of the edit histories
           Defect      \* "none"; negative controls: "unsaturated" (name length not clamped to NameMask,
                       \* dulwich write_cache_entry at 671b511), "leb128" (little-endian base-128 strip
-                      \* count instead of git's offset varint, dulwich _compress_path at 671b511)
+                      \* count instead of git's offset varint, dulwich _compress_path at 671b511),
+                      \* "stalestage" (the stage of a written entry is the slot OR-ed with the stage
+                      \* bits the entry object still carries from where it was read)
 
 NM1 == NameMask + 1
 Min(a, b) == IF a < b THEN a ELSE b
@@ -138,14 +141,18 @@ TimeNs(t) == CASE t.k = "int" -> <<0, 0>> [] t.k = "pair" -> U32(t.ns) [] OTHER 
 NormTime(t) == [k |-> "pair", s |-> TimeS(t), ns |-> TimeNs(t), q |-> 0]
 
 Extended(e) == e.skip \/ e.ita
-Flags16(e) == (IF e.valid THEN 8 * NM1 ELSE 0) + (IF Extended(e) THEN 4 * NM1 ELSE 0)
+\* the extended bit on disk: set when an extended flag is set, and also when the entry object still
+\* carries FLAG_EXTENDED from where it was read (then the extended flags word is written as 0, which
+\* git accepts; git itself recomputes the bit from the extended flags)
+ExtOnDisk(e) == Extended(e) \/ e.xbit
+Flags16(e) == (IF e.valid THEN 8 * NM1 ELSE 0) + (IF ExtOnDisk(e) THEN 4 * NM1 ELSE 0)
               + e.stage * NM1 + (IF Defect = "unsaturated" THEN RLen(e.name) ELSE Min(RLen(e.name), NameMask))
 Flags2(e)  == (IF e.skip THEN 16384 ELSE 0) + (IF e.ita THEN 8192 ELSE 0)
 
 \* what a reader hands back for e: every stat field truncated to 32 bits, times (sec, nsec)
 Norm(e) == [e EXCEPT !.ct = NormTime(e.ct), !.mt = NormTime(e.mt), !.dev = U32(e.dev), !.ino = U32(e.ino),
                      !.mode = U32(e.mode), !.uid = U32(e.uid), !.gid = U32(e.gid), !.size = U32(e.size),
-                     !.xbit = Extended(e)]
+                     !.xbit = ExtOnDisk(e)]
 
 \* ------------------------------------------------------------------ order
 KeyLess(a, b) == RLess(a.name, b.name) \/ (a.name = b.name /\ a.stage < b.stage)
@@ -166,11 +173,11 @@ Legal(S) == \A x \in S, y \in S :
 EffVersion(v, S) == IF v < 3 /\ \E e \in S : Extended(e) THEN 3 ELSE v
 
 EntryFields(e, v, prev) ==
-    LET xb == IF Extended(e) THEN 2 ELSE 0
+    LET xb == IF ExtOnDisk(e) THEN 2 ELSE 0
         fixed == <<F32(TimeS(e.ct)), F32(TimeNs(e.ct)), F32(TimeS(e.mt)), F32(TimeNs(e.mt)),
                    F32(e.dev), F32(e.ino), F32(e.mode), F32(e.uid), F32(e.gid), F32(e.size),
                    Raw(e.sha), F16(Flags16(e))>>
-                 \o (IF Extended(e) THEN <<F16(Flags2(e))>> ELSE <<>>)
+                 \o (IF ExtOnDisk(e) THEN <<F16(Flags2(e))>> ELSE <<>>)
     IN  IF v >= 4
         THEN LET c == RCommon(prev, e.name) IN
              fixed \o <<Raw(ToRuns(OffVarint(RLen(prev) - c))), Raw(RDrop(e.name, c)), Raw(Rep(0, 1))>>
@@ -385,6 +392,84 @@ CasesLemmaQ == CasesLemmaOf(NamesLemma \ { S(<<97, 98>>), DE(126), Rep(97, NameM
 CasesNeg == { Case(v, FALSE, X, <<>>) : v \in {2, 3, 4},
               X \in KeySets({ DE(127), DE(128), S(<<100, 47, 102>>), Rep(97, NameMask), Rep(97, NameMask + 1) }, 2) }
 
+\* ------------------------------------------------------------------ entry objects and edit histories
+\* After an index has been read, the in-memory index maps a path to a normal entry object or to a
+\* conflict with three slots (ancestor = 1, this = 2, other = 3).  An entry OBJECT is an entry record
+\* whose .stage (and .name) are what it carried when it was read: the stage bits stay in its flags.
+\* mem = set of [name, slot, obj].  Callers edit the index by re-slotting those objects.  What is
+\* written is determined by the SLOT an object sits in, never by the bits it still carries.
+Or2(a, b) == (IF a % 2 = 1 \/ b % 2 = 1 THEN 1 ELSE 0) + (IF a \div 2 = 1 \/ b \div 2 = 1 THEN 2 ELSE 0)
+
+MemOf(E) == { [name |-> e.name, slot |-> e.stage, obj |-> e] : e \in E }
+SlotsAt(mem, n) == { s \in mem : s.name = n }
+Has(mem, n, k) == \E s \in mem : s.name = n /\ s.slot = k
+ObjAt(mem, n, k) == (CHOOSE s \in mem : s.name = n /\ s.slot = k).obj
+SetObj(mem, n, k, o) == { s \in mem : ~(s.name = n /\ s.slot = k) } \cup { [name |-> n, slot |-> k, obj |-> o] }
+
+\* edit = [op, n (path), a (slot), b (slot), m (other path)]
+Ed(op, n, a, b, m) == [op |-> op, n |-> n, a |-> a, b |-> b, m |-> m]
+FlagOps == { "setskip", "clearskip", "setita", "clearita" }
+
+EditOK(mem, e) ==
+    CASE e.op = "resolve" -> e.a \in 1..3 /\ Has(mem, e.n, e.a)          \* index[n] = index[n].<side a>
+      [] e.op = "swap"    -> e.a \in 1..3 /\ e.b \in 1..3 /\ e.a # e.b /\ Has(mem, e.n, e.a)   \* exchange two slots
+      [] e.op = "move"    -> SlotsAt(mem, e.n) # {} /\ SlotsAt(mem, e.m) = {}   \* index[m] = index[n]; del index[n]
+      [] e.op = "toslot"  -> e.b \in 1..3 /\ e.m # e.n /\ Has(mem, e.n, 0) /\ ~Has(mem, e.m, 0)   \* copy of normal n into slot b of m
+      [] e.op \in FlagOps -> Has(mem, e.n, e.a)
+      [] OTHER -> FALSE
+
+Apply(mem, e) ==
+    CASE e.op = "resolve" -> { s \in mem : s.name # e.n } \cup { [name |-> e.n, slot |-> 0, obj |-> ObjAt(mem, e.n, e.a)] }
+      [] e.op = "swap" ->
+           { s \in mem : ~(s.name = e.n /\ s.slot \in {e.a, e.b}) }
+           \cup { [name |-> e.n, slot |-> e.b, obj |-> ObjAt(mem, e.n, e.a)] }
+           \cup (IF Has(mem, e.n, e.b) THEN { [name |-> e.n, slot |-> e.a, obj |-> ObjAt(mem, e.n, e.b)] } ELSE {})
+      [] e.op = "move" -> { s \in mem : s.name # e.n } \cup { [s EXCEPT !.name = e.m] : s \in SlotsAt(mem, e.n) }
+      [] e.op = "toslot" -> SetObj(mem, e.m, e.b, ObjAt(mem, e.n, 0))
+      [] e.op = "setskip" -> SetObj(mem, e.n, e.a, [ObjAt(mem, e.n, e.a) EXCEPT !.skip = TRUE, !.xbit = TRUE])       \* set_skip_worktree(True)
+      [] e.op = "clearskip" -> LET o == ObjAt(mem, e.n, e.a) IN                                                     \* set_skip_worktree(False)
+                               SetObj(mem, e.n, e.a, [o EXCEPT !.skip = FALSE, !.xbit = IF o.ita THEN o.xbit ELSE FALSE])
+      [] e.op = "setita" -> SetObj(mem, e.n, e.a, [ObjAt(mem, e.n, e.a) EXCEPT !.ita = TRUE])     \* extended_flags |= INTEND_TO_ADD
+      [] e.op = "clearita" -> SetObj(mem, e.n, e.a, [ObjAt(mem, e.n, e.a) EXCEPT !.ita = FALSE])  \* extended_flags &= ~INTEND_TO_ADD
+
+RECURSIVE AllOK(_, _, _)
+AllOK(mem, eds, i) == i > Len(eds) \/ (EditOK(mem, eds[i]) /\ AllOK(Apply(mem, eds[i]), eds, i + 1))
+RECURSIVE ApplyAll(_, _, _)
+ApplyAll(mem, eds, i) == IF i > Len(eds) THEN mem ELSE ApplyAll(Apply(mem, eds[i]), eds, i + 1)
+
+\* the stage an entry is written with
+WrittenStage(s) == IF Defect = "stalestage" THEN Or2(s.slot, s.obj.stage) ELSE s.slot
+Written(mem)  == { [s.obj EXCEPT !.name = s.name, !.stage = WrittenStage(s)] : s \in mem }
+SlotView(mem) == { [s.obj EXCEPT !.name = s.name, !.stage = s.slot] : s \in mem }
+
+HistNew == S(<<122, 122>>)             \* "zz": a path not in any base index
+EditsOf(mem) ==
+    LET conf == { s.name : s \in { t \in mem : t.slot > 0 } }
+        norm == { s.name : s \in { t \in mem : t.slot = 0 } }
+    IN  { e \in
+            { Ed("resolve", s.name, s.slot, 0, <<>>) : s \in mem }
+            \cup { Ed("swap", s.name, s.slot, b, <<>>) : s \in mem, b \in 1..3 }
+            \cup { Ed("move", n, 0, 0, HistNew) : n \in conf \cup norm }
+            \cup { Ed("toslot", n, 0, b, m) : n \in norm, b \in 1..3, m \in conf \cup {HistNew} }
+            \cup { Ed(op, s.name, s.slot, 0, <<>>) : op \in FlagOps, s \in mem }
+          : /\ EditOK(mem, e)
+            /\ (e.op = "swap" /\ Has(mem, e.n, e.b) => e.a < e.b)                   \* an exchange once
+            /\ (e.op = "setskip" => ~ObjAt(mem, e.n, e.a).skip) /\ (e.op = "clearskip" => ObjAt(mem, e.n, e.a).skip)
+            /\ (e.op = "setita" => ~ObjAt(mem, e.n, e.a).ita) /\ (e.op = "clearita" => ObjAt(mem, e.n, e.a).ita) }
+
+\* base indexes: full and partial conflicts next to normal entries that carry flag bits
+HA == S(<<97>>)
+HB == S(<<98>>)
+HC == S(<<99>>)
+HistBases ==
+    { Case(v, FALSE, X, <<>>) : v \in {2, 3, 4},
+        X \in { { BaseEntry(HA, 1), BaseEntry(HA, 2), BaseEntry(HA, 3), BaseEntry(HB, 0),
+                  [BaseEntry(HC, 0) EXCEPT !.skip = TRUE, !.xbit = TRUE] },
+                { BaseEntry(HA, 2), BaseEntry(HA, 3),
+                  [BaseEntry(HB, 0) EXCEPT !.ita = TRUE, !.valid = TRUE, !.xbit = TRUE] },
+                { BaseEntry(S(<<100, 47, 102>>), 1), BaseEntry(DE(130), 0) } } }
+IsHist(x) == Family \in {"hist", "quick"} /\ x \in HistBases
+
 Cases == CASE Family = "names"  -> CasesNames(NamesAll)
            [] Family = "namesq" -> CasesNames(NamesQuick)
            [] Family = "names3" -> CasesNames(NamesThree)
@@ -394,13 +479,18 @@ Cases == CASE Family = "names"  -> CasesNames(NamesAll)
            [] Family = "lemma"  -> CasesLemma
            [] Family = "lemmaq" -> CasesLemmaQ
            [] Family = "neg"    -> CasesNeg
-           [] Family = "quick"  -> CasesNames(NamesQuick) \cup CasesFlagsLegal \cup CasesStat \cup CasesExts
+           [] Family = "quick"  -> CasesNames(NamesQuick) \cup CasesFlagsLegal \cup CasesStat \cup CasesExts \cup HistBases
+           [] Family = "hist"   -> HistBases
 
 \* ------------------------------------------------------------------ the enumeration as a state machine
 VARIABLES c,        \* the case
-          ph,       \* 0: chosen, 1: laid out
-          out       \* see Compute
-vars == <<c, ph, out>>
+          ph,       \* 0: chosen (histories: being edited), 1: laid out
+          out,      \* see Compute
+          mem,      \* histories: the in-memory index (slots holding entry objects); {} otherwise
+          eds       \* histories: the edits applied so far
+vars == <<c, ph, out, mem, eds>>
+
+NoHist == [hist |-> FALSE, bv |-> 0, bins |-> <<>>, bfields |-> <<>>, eds |-> <<>>]
 
 Compute(x) ==
     LET es == Sorted(x.ents) IN
@@ -413,17 +503,52 @@ Compute(x) ==
      keep   |-> SelectSeq(x.exts, Keeps),
      must   |-> SelectSeq(x.exts, MustKeep),
      refields |-> IF x.exts = <<>> THEN <<>>
-                  ELSE LayoutOf(EffVersion(x.v, x.ents), x.skip, es, SelectSeq(x.exts, Keeps))]
+                  ELSE LayoutOf(EffVersion(x.v, x.ents), x.skip, es, SelectSeq(x.exts, Keeps)),
+     h      |-> NoHist]
 
-Init == c \in Cases /\ ph = 0 /\ out = <<>>
-Next == ph = 0 /\ ph' = 1 /\ out' = Compute(c) /\ UNCHANGED c
+\* a history: base index x written and read (its file: bfields, version bv), edits eds applied to the
+\* objects that were read, the result written again.  expect comes from the slots; fields from what
+\* the writer takes as the stage (identical unless Defect = "stalestage").
+ComputeHist(x, m, ed) ==
+    LET bv == EffVersion(x.v, x.ents)
+        es == Sorted(SlotView(m))
+        fv == EffVersion(bv, SlotView(m))
+    IN
+    [v      |-> x.v, skip |-> x.skip, exts |-> <<>>,
+     effv   |-> fv,
+     ins    |-> Reverse(es),
+     fields |-> LayoutOf(fv, x.skip, Sorted(Written(m)), <<>>),
+     expect |-> MapNorm(es),
+     keep   |-> <<>>, must |-> <<>>, refields |-> <<>>,
+     h      |-> [hist |-> TRUE, bv |-> bv, bins |-> Reverse(Sorted(x.ents)), bfields |-> Layout(x), eds |-> ed]]
+
+Init == c \in Cases /\ ph = 0 /\ out = <<>> /\ eds = <<>> /\ mem = IF IsHist(c) THEN MemOf(c.ents) ELSE {}
+
+Edit(e) ==
+    /\ ph = 0 /\ IsHist(c) /\ Len(eds) < MaxEdits
+    /\ EditOK(mem, e)
+    /\ mem' = Apply(mem, e)
+    /\ eds' = Append(eds, e)
+    /\ UNCHANGED <<c, ph, out>>
+
+LayOut ==
+    /\ ph = 0 /\ ph' = 1
+    /\ out' = IF IsHist(c) THEN ComputeHist(c, mem, eds) ELSE Compute(c)
+    /\ UNCHANGED <<c, mem, eds>>
+
+Next == LayOut \/ \E e \in EditsOf(mem) : Edit(e)
 Spec == Init /\ [][Next]_vars
 
 \* ------------------------------------------------------------------ properties of the format itself
 Done == ph = 1
 
 \* git's order: strictly increasing keys (so keys are unique and stage 0 never mixes with 1..3)
-OrderInv == Done => Ordered(out.expect) /\ Len(out.expect) = Cardinality(c.ents)
+OrderInv == Done => Ordered(out.expect) /\ Len(out.expect) = Cardinality(IF out.h.hist THEN mem ELSE c.ents)
+
+\* histories: whatever an entry object still carries, it is written at the stage of its slot, and a
+\* path never ends up both merged and unmerged
+StageFromSlot == /\ \A s \in mem : WrittenStage(s) = s.slot
+                 /\ Legal(SlotView(mem))
 
 \* version 2/3 entries are padded with 1..8 NULs to a multiple of 8 (counted from the entry start);
 \* the name-length field never spills into the stage bits; version 2 carries no extended flags
@@ -431,7 +556,7 @@ ShapeInv ==
     Done => /\ \A i \in 1..Len(out.fields) :
                    out.fields[i].t = "u16" => out.fields[i].v[1] < 65536
             /\ out.effv \in {2, 3, 4}
-            /\ (out.effv = 2 => \A e \in c.ents : ~Extended(e))
+            /\ (out.effv = 2 => \A i \in 1..Len(out.expect) : ~out.expect[i].xbit)
             /\ (out.effv < 4 => (RLen(Runs(out.fields)) - (IF c.skip THEN 32 ELSE 12)
                                   - RLen(Runs(ExtsFields(c.exts, 1)))) % 8 = 0)
 
